@@ -4,6 +4,7 @@ import (
 	"bytes"
 	"crypto"
 	"fmt"
+	"math/big"
 	"strings"
 	"time"
 
@@ -20,6 +21,7 @@ import (
 	"github.com/oasisprotocol/curve25519-voi/primitives/x25519"
 
 	"verifsim/core"
+	"verifsim/model"
 )
 
 // C19: storage / wire faults applied to artifacts the running system produced.
@@ -84,6 +86,7 @@ var (
 	c19fill        = core.RegCounter("c19.fault.fill")
 	c19noise       = core.RegCounter("c19.fault.random_noise")
 	c19pattern     = core.RegCounter("c19.fault.structured_pattern")
+	c19special     = core.RegCounter("c19.fault.boundary_values_of_p_and_L")
 	c19hang        = core.RegCounter("c19.calls_that_did_not_return")
 	c19valid       = core.RegCounter("c19.fault.none_control")
 	c19accepted    = core.RegCounter("c19.faulted_input_accepted")
@@ -233,6 +236,44 @@ func c19Targets() []c19Target {
 			_, err := m.SetBytes(b)
 			return c19Res{ok: err == nil, reenc: clone(m[:]), after: clone(m[:]), hasAfter: true}
 		}, canonical: true})
+	add(c19Target{name: "curve.EdwardsPoint.SetMontgomery(u coordinate)", size: 32,
+		gen: func(c *c19Ctx) []byte { var m curve.MontgomeryPoint; m.SetEdwards(c.g.EdPoint()); return clone(m[:]) },
+		try: func(c *c19Ctx, prev, b []byte) c19Res {
+			if len(b) != 32 {
+				return c19Res{} // MontgomeryPoint is a 32-byte array: other lengths cannot be passed (SetBytes is its own target)
+			}
+			var m curve.MontgomeryPoint
+			copy(m[:], b)
+			// u as a field element: bit 255 is ignored (RFC 7748), values 2^255-19 .. 2^255-1 are taken mod p
+			uu := model.LEToBig(append(clone(b[:31]), b[31]&0x7f))
+			uu.Mod(uu, fieldP)
+			res := c19Res{}
+			for sign := uint8(0); sign < 2; sign++ {
+				var pp curve.EdwardsPoint
+				pp.Set(curve.ED25519_BASEPOINT_POINT)
+				ret, err := pp.SetMontgomery(&m, sign)
+				if err != nil {
+					if ret != nil {
+						return c19Res{bad: "SetMontgomery returned a point together with an error"}
+					}
+					if sign == 1 && res.ok {
+						return c19Res{ok: true, bad: "SetMontgomery accepts the u coordinate with one sign and refuses it with the other"}
+					}
+					continue
+				}
+				if sign == 1 && !res.ok {
+					return c19Res{ok: true, bad: "SetMontgomery accepts the u coordinate with one sign and refuses it with the other"}
+				}
+				res.ok = true
+				// what was accepted is a point whose u coordinate is the one given
+				var back curve.MontgomeryPoint
+				back.SetEdwards(&pp)
+				if model.LEToBig(back[:]).Cmp(uu) != 0 {
+					return c19Res{ok: true, bad: fmt.Sprintf("SetMontgomery(sign %d) accepted, but the resulting point has u = %x", sign, back[:])}
+				}
+			}
+			return res
+		}})
 	// ---- scalars ----
 	scalarTry := func(set func(s *scalar.Scalar, b []byte) error) func(c *c19Ctx, prev, b []byte) c19Res {
 		return func(c *c19Ctx, prev, b []byte) c19Res {
@@ -740,6 +781,28 @@ func c19Faults(g *Gen, tg *c19Target, a []byte, visit func(kind int, name string
 			}
 			b[k/8] = byte(1<<uint(k%8+1) - 1)
 			visit(c19pattern, "pattern", b)
+		}
+	}
+	if n == 32 {
+		// boundary values of the two public moduli, p = 2^255 - 19 (RFC 7748 / 8032) and the group order L, as a
+		// 32-byte little-endian string, with bit 255 clear and set: p-3 .. p+21 covers -1, 0, 1 and every value
+		// that has a second (non-canonical) encoding below 2^255; likewise around L, 2^252, 2^255 and 0
+		one := big.NewInt(1)
+		bases := []*big.Int{new(big.Int), fieldP, model.GroupL, new(big.Int).Lsh(one, 252), new(big.Int).Lsh(one, 255), new(big.Int).Lsh(model.GroupL, 3)}
+		for _, base := range bases {
+			for d := int64(-3); d <= 21; d++ {
+				v := new(big.Int).Add(base, big.NewInt(d))
+				if v.Sign() < 0 || v.BitLen() > 256 {
+					continue
+				}
+				b := leBytes32(v)
+				visit(c19special, "modulus-boundary", b)
+				if b[31]&0x80 == 0 {
+					b2 := clone(b)
+					b2[31] |= 0x80
+					visit(c19special, "modulus-boundary", b2)
+				}
+			}
 		}
 	}
 	for i := 0; i < 24; i++ {
